@@ -777,7 +777,7 @@ Proof.
   intros g ops (HM & Hv & HH & Hmv) Hnn Hfh. unfold run_result_ok.
   destruct (run_ok g HM Hv HH Hmv ops a_init (s_init g) Hnn (Rel_init g HM Hv HH Hmv) Hfh) as (A & B).
   cbn [a_s a_init] in A, B. splits.
-  - rewrite A. rewrite (final_pos_min g ops 0) by (try assumption; lia). unfold total_requested. f_equal.
+  - rewrite A. rewrite (final_pos_min g HH Hmv ops 0) by (try assumption; lia). unfold total_requested. f_equal.
   - exact B.
   - apply (delivered_ok g ops 0); [assumption | lia | exact B].
 Qed.
